@@ -78,7 +78,19 @@ class ReadCSV(PartitionsFiltered, BlockwiseIO):
 
     @functools.cached_property
     def _meta(self):
-        return self._ddf._meta
+        meta = self._ddf._meta
+        if self._drops_path_column:
+            meta = meta[self.columns]
+        return meta
+
+    @functools.cached_property
+    def _drops_path_column(self):
+        # The reader always appends the path column (include_path_column),
+        # also when the selected columns do not contain it
+        columns = self.operand("columns")
+        return columns is not None and list(self._ddf._meta.columns) != (
+            _convert_to_list(columns)
+        )
 
     @functools.cached_property
     def columns(self):
@@ -101,6 +113,8 @@ class ReadCSV(PartitionsFiltered, BlockwiseIO):
     def _filtered_task(self, index: int):
         if self._series:
             return (operator.getitem, self._tasks[index], self.columns[0])
+        if self._drops_path_column:
+            return (operator.getitem, self._tasks[index], self.columns)
         return self._tasks[index]
 
 
